@@ -180,7 +180,8 @@ def gen_plan(module, cfg, tag, extra_env=None, timeout=1800):
 
 
 PLAN_OP2PROP = {"add": "C04", "sub": "C04", "neg": "C04", "dbl": "C04", "mul": "C05", "mulbig": "C05", "ell": "C07",
-                "dec": "C02", "enc": "C03", "eq": "C08", "isid": "C08", "conv": "C06", "torque": None, "const": "C06"}
+                "dec": "C02", "enc": "C03", "eq": "C08", "isid": "C08", "conv": "C06", "torque": None, "const": "C06",
+                "sum": "C04", "msm": "C05", "h2c": "C07"}
 
 
 def gen_session_plan(nproc=NCPU, num=40, depth=12):
@@ -302,6 +303,19 @@ def apalache_inductive(module, init, ind_init, ind_inv, safety, timeout=900):
     return done
 
 
+def gen_lazy_plans(cfgs):
+    """union of several LazyVar plans (different call alphabets / bounds); returns (path, n, states)"""
+    seqs, states = set(), 0
+    for cfg in cfgs:
+        path, n, st = gen_lazy_plan(cfg)
+        seqs |= set(open(path).read().split())
+        states += st
+    seqs = sorted(seqs, key=lambda x: (len(x), x))
+    path = os.path.join(WORK, "plan_lazy_%d.txt" % os.getpid())
+    open(path, "w").write("\n".join(seqs) + "\n")
+    return path, len(seqs), states
+
+
 def gen_lazy_plan(cfg="cfg/LazyPlan.cfg"):
     """all accessor-call sequences of the LazyVar state machine (spec -> implementation): TLC explores
     LazyVar.tla without the VIEW and prints one PLANLINE per behaviour; returns (path, n, states)"""
@@ -310,7 +324,7 @@ def gen_lazy_plan(cfg="cfg/LazyPlan.cfg"):
     shutil.rmtree(md, ignore_errors=True)
     if "No error has been found" not in r.stdout:
         raise ToolError("LazyVar plan generation failed:\n" + r.stdout[-2000:])
-    seqs = sorted(set(re.findall(r'"PLANLINE", "([CEVDNPM]+)"', r.stdout)), key=lambda x: (len(x), x))
+    seqs = sorted(set(re.findall(r'"PLANLINE", "([CEVDNPMST]+)"', r.stdout)), key=lambda x: (len(x), x))
     m = None
     for m in _mc_re.finditer(r.stdout):
         pass
@@ -327,7 +341,7 @@ KIND2PROP = {
     "bin": "C04", "neg": "C04", "dbl": "C04", "sum": "C04",
     "mul": "C05", "msm": "C05",
     "enc": "C03", "encf": "C03",
-    "eq": "C08", "isid": "C08", "hash": "C08",
+    "eq": "C08", "isid": "C08", "hash": "C08", "aobs": "C08", "aenc": "C03",
     "rt": "C01", "rt2": "C01",
     "sqrt": "C09", "fsqrt": "C09", "flegendre": "C09",
     # FieldAPI
